@@ -429,65 +429,6 @@ theorem count_fst_zip_le {β} (cs : List Name) (bl : List β) (a : Name) :
       have := ih bl
       omega
 
-theorem replacement_eq_argOf (lv : List (Name × Nat)) (bs bp : List Name) (sl pl : List Label)
-    (a : Name)
-    (H1 : ∀ p ∈ bs.zip sl, p.2.length = labelsOf lv p.1)
-    (H2 : ∀ p ∈ bp.zip pl, p.2.length ≤ labelsOf lv p.1)
-    (H3 : labelsOf lv a > 0 → a ∉ bp ∧ bs.count a ≤ 1) :
-    replacement bs (assignLabels bs sl) bp (assignLabels bp pl) a = argOf bs sl a := by
-  unfold replacement
-  rw [List.lookup_append]
-  by_cases hl : labelsOf lv a = 0
-  · -- an unlabelled name is only ever bound to itself
-    have hs : ∀ p ∈ bs.zip sl, p.1 = a → p.2 = [] := by
-      intro p hp e
-      have := H1 p hp
-      rw [e, hl] at this
-      exact List.eq_nil_of_length_eq_zero this
-    have hp' : ∀ p ∈ bp.zip pl, p.1 = a → p.2 = [] := by
-      intro p hp e
-      have := H2 p hp
-      rw [e, hl] at this
-      exact List.eq_nil_of_length_eq_zero (by omega)
-    rw [argOf_of_empty _ _ _ hs]
-    have c1 := lookup_const_of_forall (bp.zip (assignLabels bp pl)).reverse a (plain a) (by
-      intro q hq e
-      rw [zip_assignLabels] at hq
-      simp only [List.mem_reverse, List.mem_map] at hq
-      obtain ⟨p, hp, rfl⟩ := hq
-      simp only at e ⊢
-      rw [hp' p hp e, e]; simp [assignLabel, plain])
-    have c2 := lookup_const_of_forall (bs.zip (assignLabels bs sl)).reverse a (plain a) (by
-      intro q hq e
-      rw [zip_assignLabels] at hq
-      simp only [List.mem_reverse, List.mem_map] at hq
-      obtain ⟨p, hp, rfl⟩ := hq
-      simp only at e ⊢
-      rw [hs p hp e, e]; simp [assignLabel, plain])
-    rcases c1 with c1 | c1 <;> rcases c2 with c2 | c2 <;> simp [c1, c2]
-  · have hpos : labelsOf lv a > 0 := Nat.pos_of_ne_zero hl
-    obtain ⟨hnp, hcnt⟩ := H3 hpos
-    have c1 : (bp.zip (assignLabels bp pl)).reverse.lookup a = none := by
-      apply lookup_none_of_forall
-      intro q hq e
-      simp only [List.mem_reverse] at hq
-      have := (List.of_mem_zip hq).1
-      rw [e] at this
-      exact hnp this
-    have hkeys : ((bs.zip (assignLabels bs sl)).map (·.1)).count a ≤ 1 := by
-      rw [zip_assignLabels]
-      simp only [List.map_map, Function.comp_def]
-      exact Nat.le_trans (count_fst_zip_le bs sl a) hcnt
-    rw [c1, Option.none_or, lookup_reverse_of_count_le_one _ _ hkeys]
-    have := lookup_zip_assign_nonempty bs sl a (by
-      intro p hp e hnil
-      have := H1 p hp
-      rw [e, hnil] at this
-      simp at this; omega)
-    rw [← this]
-    cases (bs.zip (assignLabels bs sl)).lookup a <;> simp
-
-
 /-! ### `mapM` in `Except` -/
 
 inductive Fa2 {α β} (R : α → β → Prop) : List α → List β → Prop where
@@ -634,8 +575,8 @@ theorem Fa2.imp {α β} {R S : α → β → Prop} (hRS : ∀ x y, R x y → S x
 def isoRxnOf (r : BRxn) (bs bp : List Name) (ls lp : List Nat) (ext w ps : Label) : LRxn :=
   { name := ⟨r.name, some (w ++ ext)⟩
     fn := r.fn
-    args := r.args.map (replacement bs (assignLabels bs (splitLabel (w ++ ext) ls)) bp
-              (assignLabels bp (splitLabel ps lp)))
+    args := replaceArgs bs (assignLabels bs (splitLabel (w ++ ext) ls)) bp
+              (assignLabels bp (splitLabel ps lp)) [] r.args
     stoich := repack (assignLabels bs (splitLabel (w ++ ext) ls))
               (assignLabels bp (splitLabel ps lp)) }
 
@@ -693,75 +634,6 @@ theorem distinct_spec {lv : List (Name × Nat)} {r : BRxn} (hd : DistinctOccurre
   rcases this with h | h
   · omega
   · exact h
-
-/-- rate of the reaction generated for pattern `w`, under the hypotheses -/
-theorem rate_isoRxnOf {lv : List (Name × Nat)} {r : BRxn} (hd : DistinctOccurrences lv r)
-    (hm : MassAction lv r) (σ : LName → Rat) (w ps : Label) (hw : w ∈ patterns (nSub lv r)) :
-    (isoRxnOf r (subsOf r) (prodsOf r) (labelsPer lv (subsOf r)) (labelsPer lv (prodsOf r))
-        (extOf lv r) w ps).rate σ
-      = listProd (r.args.map fun a =>
-          σ (argOf (subsOf r) (splitLabel w (labelsPer lv (subsOf r))) a)) := by
-  have hlen : w.length = nSub lv r := mem_patterns.mp hw
-  simp only [LRxn.rate, isoRxnOf, hm.fn_prod, List.map_map]
-  congr 1
-  apply List.map_congr_left
-  intro a ha
-  simp only [Function.comp]
-  rw [splitLabel_append w _ _ (by rw [hlen]; exact Nat.le_refl _)]
-  congr 1
-  apply replacement_eq_argOf lv
-  · exact splitLabel_zip_eq (labelsOf lv) (subsOf r) w (by
-      show (labelsPer lv (subsOf r)).sum ≤ _; rw [hlen]; exact Nat.le_refl _)
-  · exact splitLabel_zip_le (labelsOf lv) (prodsOf r) ps
-  · intro hl
-    have h1 := distinct_spec hd ha hl
-    have h2 := hm.order a hl
-    have h3 : r.args.count a > 0 := List.count_pos_iff.mpr ha
-    rw [List.count_append] at h1
-    refine ⟨?_, by omega⟩
-    intro hmem
-    have : (prodsOf r).count a > 0 := List.count_pos_iff.mpr hmem
-    omega
-
-theorem collapse_core {lv : List (Name × Nat)} {r : BRxn} {lm : List Nat} {rs : List LRxn}
-    (hok : isotopomerReactions lv r lm = .ok rs)
-    (hd : DistinctOccurrences lv r) (hm : MassAction lv r) (σ : LName → Rat) :
-    (rs.map (·.rate σ)).sum = r.rate (totalsEnv lv σ) := by
-  obtain ⟨_, hfa⟩ := isotopomerReactions_ok hok
-  rw [forall₂_map_sum (fun rx => rx.rate σ)
-    (fun w => listProd (r.args.map fun a =>
-      σ (argOf (subsOf r) (splitLabel w (labelsPer lv (subsOf r))) a))) hfa
-    (by rintro w rx hw ⟨ps, _, rfl⟩; exact rate_isoRxnOf hd hm σ w ps hw)]
-  have hs := sum_split (labelsPer lv (subsOf r))
-    (fun blocks => listProd (r.args.map fun a => σ (argOf (subsOf r) blocks a)))
-  simp only [sumMap, nSub] at hs ⊢
-  rw [hs, collapse_blocks lv (subsOf r) r.args σ]
-  · simp only [BRxn.rate, hm.fn_prod]
-    congr 1
-    apply List.map_congr_left
-    intro a ha
-    simp only [baseVal, totalsEnv]
-    by_cases hl : labelsOf lv a > 0
-    · have h2 := hm.order a hl
-      have h3 : r.args.count a > 0 := List.count_pos_iff.mpr ha
-      have : a ∈ subsOf r := List.count_pos_iff.mp (by omega)
-      simp [hl, this]
-    · simp [hl]
-  · intro a hl
-    by_cases ha : a ∈ r.args
-    · have h1 := distinct_spec hd ha hl
-      rw [List.count_append] at h1; omega
-    · have h2 := hm.order a hl
-      have : r.args.count a = 0 := List.count_eq_zero.mpr ha
-      omega
-  · intro a ha hl
-    have h2 := hm.order a hl
-    have h3 : (subsOf r).count a > 0 := List.count_pos_iff.mpr ha
-    have hmem : a ∈ r.args := List.count_pos_iff.mp (by omega)
-    have h1 := distinct_spec hd hmem hl
-    rw [List.count_append] at h1
-    omega
-
 
 /-! ### `_repack_stoichiometries` -/
 
@@ -1255,24 +1127,6 @@ theorem unit_stoich_mem {lv : List (Name × Nat)} {r : BRxn} {lm : List Nat} {rs
   obtain ⟨w, hw, ps, hps, rfl⟩ := gen_of_mem h rx hrx
   exact unit_stoich_isoRxnOf lv r lm w ps hw hps hwf x
 
-theorem dynamics_core {lv : List (Name × Nat)} {r : BRxn} {lm : List Nat} {rs : List LRxn}
-    (hok : isotopomerReactions lv r lm = .ok rs) (hwf : nProd lv r ≤ lm.length)
-    (hm : MassAction lv r) (hd : DistinctOccurrences lv r) (σ : LName → Rat) (x : Name) :
-    ((binaryLabels x (labelsOf lv x)).map (rhsOf rs σ)).sum
-      = (netStoich r.stoich x : Rat) * r.rate (totalsEnv lv σ) := by
-  have hr : rhsOf rs σ = fun n => (rs.map fun rx => (coefOf rx.stoich n : Rat) * rx.rate σ).sum := by
-    funext n; rfl
-  rw [hr, sum_swap]
-  have : ∀ rx ∈ rs, ((binaryLabels x (labelsOf lv x)).map fun n =>
-      ((coefOf rx.stoich n : Int) : Rat) * rx.rate σ).sum
-        = (netStoich r.stoich x : Rat) * rx.rate σ := by
-    intro rx hrx
-    rw [sum_map_mul_right, ← unit_stoich_mem hok hwf rx hrx x, intCast_sum, List.map_map]
-    rfl
-  rw [List.map_congr_left this, sum_map_mul_left, collapse_core hok hd hm σ]
-
-
-
 theorem buildModel_rxns {b : Base} {lv : List (Name × Nat)} {maps : List (Name × List Nat)}
     {il : List (Name × List Nat)} {m : LModel} (hb : buildModel b lv maps il = .ok m) :
     ∃ groups, b.rxns.mapM (buildRxn lv maps) = .ok groups ∧ m.rxns = groups.flatten ∧
@@ -1285,66 +1139,6 @@ theorem buildModel_rxns {b : Base} {lv : List (Name × Nat)} {maps : List (Name 
     simp only [bind, Except.bind, pure, Except.pure, Except.ok.injEq] at hb
     subst hb
     exact ⟨groups, rfl, rfl, rfl, rfl⟩
-
-theorem group_dynamics {lv : List (Name × Nat)} {maps : List (Name × List Nat)} {r : BRxn}
-    {grp : List LRxn} (hg : buildRxn lv maps r = .ok grp) (hr : RxnOk lv maps r)
-    (σ : LName → Rat)
-    (hσ : ∀ k n, lv.lookup k = some n → σ (plain (k ++ "__total")) = totalOf σ k n) (x : Name) :
-    ((binaryLabels x (labelsOf lv x)).map (rhsOf grp σ)).sum
-      = (netStoich r.stoich x : Rat) * r.rate (fun a => σ (totalName lv a)) := by
-  have henv : totalsEnv lv σ = fun a => σ (totalName lv a) :=
-    funext (totalsEnv_eq_totalName lv σ hσ)
-  unfold buildRxn at hg
-  unfold RxnOk at hr
-  cases hl : maps.lookup r.name with
-  | some lm =>
-    rw [hl] at hg hr
-    simp only at hg hr
-    rw [dynamics_core hg hr.1 hr.2.1 hr.2.2 σ x, henv]
-  | none =>
-    rw [hl] at hg hr
-    simp only [pure, Except.pure, Except.ok.injEq] at hg hr
-    subst hg
-    have hrate : rhsOf [unmappedRxn lv r] σ
-        = fun n => ((coefOf (r.stoich.map fun kv => (plain kv.1, kv.2)) n : Int) : Rat)
-            * r.rate (fun a => σ (totalName lv a)) := by
-      funext n
-      simp [rhsOf, unmappedRxn, LRxn.rate, BRxn.rate, List.map_map, Function.comp_def, Rat.add_zero]
-    rw [hrate]
-    rw [sum_map_mul_right]
-    congr 1
-    cases hx : lv.lookup x with
-    | some n =>
-      have hz : netStoich r.stoich x = 0 := by
-        apply netStoich_zero_of_not_mem
-        intro kv hkv e
-        have := hr.1 kv hkv
-        rw [e, hx] at this; cases this
-      rw [hz]
-      have : ∀ n' ∈ binaryLabels x (labelsOf lv x),
-          ((coefOf (r.stoich.map fun kv => (plain kv.1, kv.2)) n' : Int) : Rat) = 0 := by
-        intro n' hn'
-        unfold binaryLabels at hn'
-        split at hn'
-        · obtain ⟨w, _, rfl⟩ := List.mem_map.mp hn'
-          simp [coefOf, lookup_map_plain_some]
-        · simp only [List.mem_singleton] at hn'
-          subst hn'
-          have hnone : r.stoich.lookup x = none := by
-            apply lookup_none_of_forall
-            intro p hp e
-            have := hr.1 p hp
-            rw [e, hx] at this; cases this
-          have := lookup_map_plain r.stoich x
-          show (((coefOf (r.stoich.map fun kv => (plain kv.1, kv.2)) (plain x) : Int)) : Rat) = 0
-          simp [coefOf, this, hnone]
-      rw [List.map_congr_left this, sum_map_zero]; simp
-    | none =>
-      rw [binaryLabels_labelsOf lv x hx]
-      simp only [List.map_cons, List.map_nil, List.sum_cons, List.sum_nil, Rat.add_zero]
-      rw [netStoich_eq_lookup _ _ hr.2]
-      simp [coefOf, lookup_map_plain]
-
 
 theorem valF_var (m : LModel) (st : List (LName × Rat)) (f : Nat) (n : LName) (v : Rat)
     (h : st.lookup n = some v) : m.valF st (f + 1) n = v := by
